@@ -1,5 +1,6 @@
 import AdfObdd.CliModel
 import AdfObdd.CliFaithful
+import AdfObdd.CliModesProofs
 /-! # C15 — CLI output is faithful in every library mode
 
 Model: `Cli.run` (`CliModel.lean`) — the three arms of `App::run`, the per-mode wiring table
@@ -10,7 +11,15 @@ prescribe" and "the three modes print the same sets" are read over the flags a m
 Wiring and order: `sections_exact`, `sections_in_documented_order`, `sections_nodup`, `run_blocks`.
 Content: `cli_faithful` (every block of every invocation is, as a multiset of three-valued
 interpretations, the specification's answer for its section — `CliFaithful.lean`),
-`cli_faithful_without_search_flags`, `cli_faithful_every_large_bound`, `modes_print_same_sets`. -/
+`cli_faithful_without_search_flags`, `cli_faithful_every_large_bound`, `modes_print_same_sets`.
+
+`Cli.run` is what the model driver executes; it starts from a BUILT native framework and its
+`.biodivine` arm is the native one (so statements that compare its modes say nothing about the
+biodivine back-end). The second part of this file (`## from the text, arm by arm`) is about
+`CliM.runText` (`CliModes.lean`): the three arms as written in `main.rs`, from the TEXT of the file
+(parse, `--lx`/`--an`, construction per arm, biodivine algorithms over the lawful library, bridge,
+`--stmrew`/`--stmrew2` rewriting variants) to exit status and rendered lines. Its naive arm is
+`Cli.run .naive` (`naive_arm_is_driver_model`). -/
 namespace C15
 
 /-- the printed sections are exactly the requested ones the mode implements … -/
@@ -46,15 +55,6 @@ theorem run_blocks (m : Cli.Mode) (f : Cli.Flags) (heu : SM.Heu) (s : Store) (n 
     | nil => intro acc; simp [Cli.runFrom]
     | cons x xs ih => intro acc; simp only [Cli.runFrom]; rw [ih]; simp
   simpa [Cli.run] using this _ (Cli.sections m f) ((Cli.startOf m s n ac).1, [])
-
-/-- what the definitions prescribe does not depend on the library mode: for a section two modes
-both implement, the prescribed set is the same -/
-theorem modes_prescribe_same_sets (n : Nat) (tts : List Nat) (s : Cli.Section) (m m' : Cli.Mode)
-    (_h : Cli.implemented m s = true) (_h' : Cli.implemented m' s = true) :
-    Cli.specSection n tts s = Cli.specSection n tts s := rfl
-
-/-- malformed input: non-zero exit status, no interpretation printed -/
-theorem rejects_malformed : Cli.rejected.1 ≠ 0 ∧ Cli.rejected.2 = [] := by decide
 
 /-! ## faithfulness: every block is the specification's answer
 
@@ -119,8 +119,10 @@ theorem cli_faithful_every_large_bound (m : Cli.Mode) (f : Cli.Flags) (heu : SM.
           (Cli.specSection n (fms.map (fun φ => TT.ofFn n (fun a => φ.sem (fun v => a.testBit v)))) blk.1) :=
   CliF.runF_faithful_eventually m f heu n fms hl hn ha
 
-/-- the three modes print the same sets: two invocations that differ in the library mode only print,
-for every section both modes implement, permutations of one another -/
+/-- two invocations of `Cli.run` that differ in the library mode only print, for every section both
+modes implement, permutations of one another. NOTE: in `Cli.run` the `.biodivine` arm is the native
+one, so this compares the hybrid start (pre-grounding) with the plain start only; the statement
+about the three REAL arms is `three_modes_print_same_sets` below. -/
 theorem modes_print_same_sets (m m' : Cli.Mode) (f : Cli.Flags) (heu heu' : SM.Heu) (n : Nat) (fms : List Fm)
     (hl : fms.length = n) (hn : n ≤ VBOT) (ha : ∀ φ ∈ fms, NConc.atomsLt n φ)
     (hh : CliF.Halted m f heu (buildNative n fms).1 n (buildNative n fms).2)
@@ -156,4 +158,127 @@ def exFlags : Cli.Flags :=
 
 example : Cli.sections .naive { grd := true, stm := true, stmca := true } = [.grd, .stm] := by decide
 
+
+/-! ## from the text, arm by arm (`CliM.runText`)
+
+Assumptions (all explicit): `CliMP.WorldOK` — the external BDD library is lawful for every variable
+set (`Bio.Lawful`), the alphanumeric sort of crate `lexical-sort` returns a permutation of the name
+list; for the hybrid arm `CliMP.DumpOKW` — `Bdd::to_string()` is an ordered node dump of the diagram
+(the hypothesis `DumpOK` of the bridge theorem C09). Hypotheses of the statements beyond
+"well-formed file": the statement labels contain none of `! & | ^ = < > ( ) ? :` in the two arms that
+use the library (otherwise these arms PANIC — `library_arms_panic_on_special_labels`, a finding);
+with `--stmrew` no statement has two conditions in the file (the prepared rewriting conjoins an
+equivalence for EVERY written condition, `Bio.rewriteExpr`); the fuel hypothesis `CliM.haltedParsed`
+(see `CliModesProofs`, section "the fuel hypothesis"). -/
+
+open CliM CliMP ParserM FromParser in
+/-- **C15 from the text** (all clauses but the rejection): for a text of the documented format that
+describes a well-formed ADF, every library mode, every set of semantics flags, every sorting flag and
+heuristic: exit status 0; stdout consists of one block per requested section the mode implements,
+in the documented order; every block is, as a multiset of three-valued interpretations, exactly what
+the definitions prescribe for its section on the framework of the file (statements in the order the
+sorting flag asks for); every line is `render names v` for a vector with one entry per statement -/
+theorem cli_text_faithful {T : Type} (W : World T) (ok : WorldOK W) (fuel : Nat) (i : Inv) (t : List Char)
+    (fs : List Fact) (hd : DerFile fs t) (hne : fs ≠ []) (hwf : WellFormedAdf fs)
+    (hn : (namesOf fs).length ≤ VBOT)
+    (hnames : i.mode ≠ .naive → (namesOf fs).all bioNameOK = true)
+    (hone : i.mode ≠ .naive → i.flags.stmrew = true → ((acsOf fs).map (·.1)).Nodup)
+    (hdump : i.mode = .hybrid → DumpOKW W ok)
+    (hh : haltedParsed W fuel i (sortState W.anSort i.sort (PState.ofFacts fs)) = true) :
+    ∃ blocks : List Block,
+      runText W fuel i t =
+        ⟨0, blocks.flatMap fun b => b.2.map (render (sortedNames W.anSort i.sort (namesOf fs)))⟩ ∧
+      blocks.map (·.1) = Cli.sections i.mode i.flags ∧
+      (∀ blk ∈ blocks, (blk.2.map (fun v => v.map storeIsConst)).Perm
+        (Cli.specSection (sortedNames W.anSort i.sort (namesOf fs)).length
+          (tablesD (sortedNames W.anSort i.sort (namesOf fs)).length
+            (SortModel.condFnsOn (sortedNames W.anSort i.sort (namesOf fs)) (condOf fs))) blk.1)) ∧
+      (∀ blk ∈ blocks, ∀ v ∈ blk.2, v.length = (sortedNames W.anSort i.sort (namesOf fs)).length) :=
+  runText_faithful W ok fuel i t fs hd hne hwf hn hnames hone hdump hh
+
+open CliM CliMP ParserM FromParser in
+/-- **the three library modes print the same sets** — the three arms are three different
+computations (own store; back-end algorithms on the external library; library grounding + bridge +
+own store, rewriting variants via the library's `sat_valuations`): two invocations on the same
+parser object in any two modes, for every section both print, print permutations of one another -/
+theorem three_modes_print_same_sets {T : Type} (W : World T) (ok : WorldOK W) (fuel fuel' : Nat) (i i' : Inv)
+    {st : PState} {names : List Label} {acs : List (Label × Fml)}
+    (h : Pres st names acs) (hwf : WfOn names acs) (hn : names.length ≤ VBOT)
+    (hnames : names.all bioNameOK = true) (hone : (acs.map (·.1)).Nodup) (hdump : DumpOKW W ok)
+    (hh : haltedParsed W fuel i st = true) (hh' : haltedParsed W fuel' i' st = true)
+    (blocks blocks' : List Block) (hb : runParsed W fuel i st = some blocks)
+    (hb' : runParsed W fuel' i' st = some blocks')
+    (blk blk' : Block) (hm : blk ∈ blocks) (hm' : blk' ∈ blocks') (hs : blk.1 = blk'.1) :
+    (blk.2.map (fun v => v.map storeIsConst)).Perm (blk'.2.map (fun v => v.map storeIsConst)) :=
+  modes_same_sets W ok fuel fuel' i i' h hwf hn hnames hone hdump hh hh' blocks blocks' hb hb' blk blk' hm hm' hs
+
+/-- the naive arm of the text-level model is the function the driver executes and compares with the
+binary (`Cli.run .naive` at the bound 1 000 000, on the object `from_parser` builds) -/
+theorem naive_arm_is_driver_model (f : Cli.Flags) (heu : SM.Heu) (st : ParserM.PState) :
+    CliM.runNaive 1000000 f heu st =
+      (FromParser.fromParser st).map fun b => Cli.run .naive f heu b.1 (FromParser.dictSizeOf st) b.2 :=
+  CliMP.runNaive_eq f heu st
+
+/-- **malformed input: non-zero exit status, no interpretation printed** — for the run on the TEXT:
+the parser refuses the text, or it accepts it and `from_parser` panics (a condition for an undeclared
+label or with an undeclared atom), in every mode with every flag -/
+theorem rejects_malformed_text {T : Type} (W : CliM.World T) (han : ∀ ns, (W.anSort ns).Perm ns) (fuel : Nat)
+    (i : CliM.Inv) (t : List Char)
+    (h : ParserM.parse t = none ∨ ∃ st, CliM.parsed W i t = some st ∧ FromParser.fromParser st = none) :
+    CliM.runText W fuel i t = CliM.rejected ∧ (CliM.runText W fuel i t).exit ≠ 0 ∧
+    (CliM.runText W fuel i t).stdout = [] := by
+  have := CliMP.runText_rejects W han fuel i t h
+  rw [this]
+  exact ⟨rfl, by decide, rfl⟩
+
+/-- … in terms of the written facts: a text of the documented format that is not a well-formed ADF -/
+theorem rejects_ill_formed_adf {T : Type} (W : CliM.World T) (han : ∀ ns, (W.anSort ns).Perm ns) (fuel : Nat)
+    (i : CliM.Inv) (t : List Char) (fs : List ParserM.Fact) (hd : ParserM.DerFile fs t) (hne : fs ≠ [])
+    (hbad : ¬ FromParser.WellFormedAdf fs) : CliM.runText W fuel i t = CliM.rejected :=
+  CliMP.runText_rejects_ill_formed W han fuel i t fs hd hne hbad
+
+open CliM CliMP ParserM FromParser in
+/-- **one line per interpretation, each statement labelled T/F/u by its own name**: every line of
+stdout is, for one vector `v` with one entry per statement, the concatenation over the statements
+`k` (in the printed order) of `mark(v_k) ( name_k ) blank`; `mark_is_value`: the mark is `T`/`F`/`u`
+exactly when the entry is true / false / undecided -/
+theorem line_format {T : Type} (W : World T) (ok : WorldOK W) (fuel : Nat) (i : Inv) (t : List Char)
+    (fs : List Fact) (hd : DerFile fs t) (hne : fs ≠ []) (hwf : WellFormedAdf fs)
+    (hn : (namesOf fs).length ≤ VBOT)
+    (hnames : i.mode ≠ .naive → (namesOf fs).all bioNameOK = true)
+    (hone : i.mode ≠ .naive → i.flags.stmrew = true → ((acsOf fs).map (·.1)).Nodup)
+    (hdump : i.mode = .hybrid → DumpOKW W ok)
+    (hh : haltedParsed W fuel i (sortState W.anSort i.sort (PState.ofFacts fs)) = true) :
+    ∀ line ∈ (runText W fuel i t).stdout, ∃ v : List Nat,
+      v.length = (sortedNames W.anSort i.sort (namesOf fs)).length ∧
+      line = (List.zipWith entry (sortedNames W.anSort i.sort (namesOf fs)) v).flatten :=
+  runText_lines W ok fuel i t fs hd hne hwf hn hnames hone hdump hh
+
+theorem mark_is_value (t : Nat) :
+    (CliM.mark t = 'T' ↔ storeIsConst t = some true) ∧ (CliM.mark t = 'F' ↔ storeIsConst t = some false) ∧
+    (CliM.mark t = 'u' ↔ storeIsConst t = none) := CliMP.mark_spec t
+
+/-- with `--lx` the statements are printed in byte-wise label order (the order of Rust's `String`) -/
+theorem lx_prints_in_bytewise_order {T : Type} (W : CliM.World T) (ns : List ParserM.Label) :
+    (CliMP.sortedNames W.anSort .lx ns).Pairwise (fun a b => SortModel.byteLe a b = true) :=
+  SortModel.isort_sorted _ SortModel.byteLe_total SortModel.byteLe_trans ns
+
+/-- the fuel hypothesis holds outright without `--twoval`/`--stmng` and in the biodivine arm … -/
+theorem halted_without_search {T : Type} (W : CliM.World T) (fuel : Nat) (i : CliM.Inv) (st : ParserM.PState)
+    (h : i.mode = .biodivine ∨ (i.flags.twoval = false ∧ i.flags.stmng = false)) :
+    CliM.haltedParsed W fuel i st = true := CliMP.halted_of_no_search W fuel i st h
+
+/-- **finding (C15 does not hold as written)**: a well-formed file whose quoted labels contain one of
+`! & | ^ = < > ( ) ? :` makes the biodivine arm and the hybrid (default) arm panic -/
+theorem library_arms_panic_on_special_labels {T : Type} (W : CliM.World T) (fuel : Nat) (i : CliM.Inv)
+    (t : List Char) (st : ParserM.PState) (hp : CliM.parsed W i t = some st) (hm : i.mode ≠ .naive)
+    (hbad : st.namelist.all CliM.bioNameOK = false) : CliM.runText W fuel i t = CliM.rejected :=
+  CliMP.bio_arms_reject_special_label W fuel i t st hp hm hbad
+
 end C15
+#print axioms C15.cli_text_faithful
+#print axioms C15.three_modes_print_same_sets
+#print axioms C15.rejects_malformed_text
+#print axioms C15.line_format
+#print axioms C15.naive_arm_is_driver_model
+#print axioms C15.library_arms_panic_on_special_labels
